@@ -1436,7 +1436,9 @@ func HandleUploadFile(cc *hotline.ClientConn, t *hotline.Transaction) (res []hot
 			return cc.NewErrReply(t, fmt.Sprintf("Cannot accept upload of the file \"%v\" because you are only allowed to upload to the \"Uploads\" folder.", string(fileName)))
 		}
 	}
-	fullFilePath, err := hotline.ReadPath(cc.FileRoot(), filePath, fileName)
+	// ReadTargetPath: an upload whose name resolves to the file root itself is not an upload into the root; its partial
+	// file and side files would be created next to the root, in the root's parent directory.
+	fullFilePath, err := hotline.ReadTargetPath(cc.FileRoot(), filePath, fileName)
 	if err != nil {
 		return res
 	}
